@@ -3,8 +3,12 @@
 //! Every subcommand prints JSON lines on stdout. Random choices derive from the seed
 //! given on the command line.
 
+mod canon;
+mod gen;
+mod grad;
 mod json;
 mod rng;
+mod settings;
 mod sv;
 
 fn arg<T: std::str::FromStr>(args: &[String], i: usize, default: T) -> T {
@@ -16,6 +20,7 @@ fn main() {
     let cmd = args.get(1).map(String::as_str).unwrap_or("");
     match cmd {
         "sv" => sv::main(arg(&args, 2, 0), arg(&args, 3, 100)),
+        "grad" => grad::main(arg(&args, 2, 0), arg(&args, 3, 100), arg(&args, 4, 40)),
         _ => {
             eprintln!("unknown subcommand {cmd:?}");
             std::process::exit(2);
